@@ -275,7 +275,33 @@ fn ipfix_pkt(rng: &mut Rng, sets: &[Vec<u8>]) -> Vec<u8> {
 pub fn family(rng: &mut Rng, big: bool) -> (&'static str, Vec<Vec<u8>>) {
     let cap = if big { 65000usize } else { 3000 };
     let id = 256 + rng.below(4) as u16;
-    match rng.below(14) {
+    match rng.below(15) {
+        14 => {
+            // V5 / V7 headers whose count times the record size exceeds 16 bits, over a body as
+            // long as the product's low 16 bits: a length guard computed in u16 lets them pass
+            let v5 = rng.chance(1, 2);
+            let rec: usize = if v5 { 48 } else { 52 };
+            let n = rng.urange(1, 4);
+            let mut v = Vec::new();
+            for _ in 0..n {
+                let mut count;
+                loop {
+                    count = *rng.pick(&[1366usize, 2731, 4096, 8192, 16384, 32768, 1261, 2521, 5042]);
+                    if rng.chance(1, 2) {
+                        count = rng.urange(65536 / rec + 1, 65535);
+                    }
+                    if (count * rec) & 0xffff < cap.min(4000) {
+                        break;
+                    }
+                }
+                let body = ((count * rec) & 0xffff) + *rng.pick(&[0usize, 0, 1, 47, 52]);
+                be16(&mut v, if v5 { 5 } else { 7 });
+                be16(&mut v, count as u16);
+                v.extend(rng.bytes(20));
+                v.extend(rng.bytes(body));
+            }
+            ("fam_v5_v7_count_times_record_size_wraps_16_bits", vec![v])
+        }
         13 => {
             // big templates in the cache, then a buffer packed with small messages of the same
             // protocol: anything that costs "cache size" per message shows as a huge ratio
